@@ -223,9 +223,18 @@ pub enum Knob {
     /// padded size 1: append one bogus inner-product round that balances a check which forgot
     /// to compare the round count with the claimed length
     SurplusRound,
+    /// no first-phase gates: blind A_I1, A_O1, S1 with zero, i.e. send identity points (relations (b), (c)
+    /// hold, the mandatory-point clause (a) does not)
+    ZeroBlindPhase1,
 }
 
 pub fn ref_prove<G: AffineRepr + 'static>(shape: &Shape, shr: &Rc<RefCell<Shared<G>>>, B: G, Bb: G, Gs: &[G], Hs: &[G], seed: u64, knob: Knob) -> Option<R1CSProof<G>> {
+    ref_prove_shifted(shape, shr, B, Bb, Gs, Hs, seed, knob, None)
+}
+
+/// `shift_a_i1`: an (otherwise honest) prover that adds the given point -- e.g. a small-order point on a
+/// cofactor curve -- to A_I1 before it is absorbed; relation (c) then fails by x * shift.
+pub fn ref_prove_shifted<G: AffineRepr + 'static>(shape: &Shape, shr: &Rc<RefCell<Shared<G>>>, B: G, Bb: G, Gs: &[G], Hs: &[G], seed: u64, knob: Knob, shift_a_i1: Option<G>) -> Option<R1CSProof<G>> {
     let mut rng = rand_chacha::ChaChaRng::seed_from_u64(seed ^ 0x4ef);
     let mut cs = start::<G>(shape, true, B, Bb, false);
     run_ops(&mut cs, &shape.phase1, shr, false);
@@ -236,7 +245,12 @@ pub fn ref_prove<G: AffineRepr + 'static>(shape: &Shape, shr: &Rc<RefCell<Shared
         return None;
     }
     let mut rnd = |rng: &mut rand_chacha::ChaChaRng| FOf::<G>::rand(rng);
-    let (ri1, ro1, rs1) = (rnd(&mut rng), rnd(&mut rng), rnd(&mut rng));
+    let (mut ri1, mut ro1, mut rs1) = (rnd(&mut rng), rnd(&mut rng), rnd(&mut rng));
+    if knob == Knob::ZeroBlindPhase1 && n1 == 0 {
+        ri1 = FOf::<G>::zero();
+        ro1 = FOf::<G>::zero();
+        rs1 = FOf::<G>::zero();
+    }
     let sL1: Vec<FOf<G>> = (0..n1).map(|_| rnd(&mut rng)).collect();
     let sR1: Vec<FOf<G>> = (0..n1).map(|_| rnd(&mut rng)).collect();
     let com = |lo: usize, hi: usize, l: &[FOf<G>], r: Option<&[FOf<G>]>, bl: FOf<G>| -> G {
@@ -249,7 +263,10 @@ pub fn ref_prove<G: AffineRepr + 'static>(shape: &Shape, shr: &Rc<RefCell<Shared
         }
         acc.into_affine()
     };
-    let A_I1 = com(0, n1, &cs.aL[..n1], Some(&cs.aR[..n1]), ri1);
+    let mut A_I1 = com(0, n1, &cs.aL[..n1], Some(&cs.aR[..n1]), ri1);
+    if let Some(t) = shift_a_i1 {
+        A_I1 = (A_I1.into_group() + t.into_group()).into_affine();
+    }
     let A_O1 = com(0, n1, &cs.aO[..n1], None, ro1);
     let S1 = com(0, n1, &sL1, Some(&sR1), rs1);
     t_point(&mut cs.t, b"A_I1", &A_I1);
@@ -283,7 +300,7 @@ pub fn ref_prove<G: AffineRepr + 'static>(shape: &Shape, shr: &Rc<RefCell<Shared
                 rs2 = rnd(&mut rng);
                 ((Bb * ri2).into_affine(), (Bb * ro2).into_affine(), (Bb * rs2).into_affine())
             }
-            Knob::Honest | Knob::SurplusRound => (G::zero(), G::zero(), G::zero()),
+            Knob::Honest | Knob::SurplusRound | Knob::ZeroBlindPhase1 => (G::zero(), G::zero(), G::zero()),
         }
     };
     t_point(&mut cs.t, b"A_I2", &A_I2);
